@@ -18,6 +18,8 @@ pub trait Elem: Copy + 'static {
     const HEX: usize;
     fn from_hex(s: &str) -> Self;
     fn to_hex(self) -> String;
+    /// like to_hex, but a NaN keeps its sign and payload: "nan:<bits>" (place flag `b`, C08 paired runs)
+    fn to_hex_raw(self) -> String { self.to_hex() }
 }
 macro_rules! int_elem {
     ($t:ty, $u:ty, $hex:expr) => {
@@ -34,11 +36,13 @@ impl Elem for f32 {
     const HEX: usize = 8;
     fn from_hex(s: &str) -> Self { f32::from_bits(u32::from_str_radix(s, 16).unwrap()) }
     fn to_hex(self) -> String { if self.is_nan() { "nan".into() } else { format!("{:08x}", self.to_bits()) } }
+    fn to_hex_raw(self) -> String { if self.is_nan() { format!("nan:{:08x}", self.to_bits()) } else { format!("{:08x}", self.to_bits()) } }
 }
 impl Elem for f64 {
     const HEX: usize = 16;
     fn from_hex(s: &str) -> Self { f64::from_bits(u64::from_str_radix(s, 16).unwrap()) }
     fn to_hex(self) -> String { if self.is_nan() { "nan".into() } else { format!("{:016x}", self.to_bits()) } }
+    fn to_hex_raw(self) -> String { if self.is_nan() { format!("nan:{:016x}", self.to_bits()) } else { format!("{:016x}", self.to_bits()) } }
 }
 
 extern "C" {
@@ -74,6 +78,8 @@ impl<T: Copy> Guarded<T> {
         }
     }
     pub fn slice(&self) -> &[T] { unsafe { std::slice::from_raw_parts(self.ptr, self.len) } }
+    /// the bytes of the slice as they are in memory now
+    pub fn raw_bytes(&self) -> &[u8] { unsafe { std::slice::from_raw_parts(self.ptr as *const u8, self.len * std::mem::size_of::<T>()) } }
     pub fn slice_mut(&mut self) -> &mut [T] { unsafe { std::slice::from_raw_parts_mut(self.ptr, self.len) } }
     /// true when every byte of the window outside the slice still holds the canary
     pub fn canaries_intact(&self, canary: u8) -> bool {
@@ -98,6 +104,77 @@ fn panic_kind(e: Box<dyn std::any::Any + Send>) -> String {
 
 pub struct Case<'a, T> { pub v: T, pub a: Vec<T>, pub b: Vec<T>, pub r: Vec<T>, pub place: &'a str }
 
+/// The <place> token (backward compatible: "R", "L", "<n>" mean what they always meant, for all three slices):
+///   <place> ::= <spec> [ "+" <flags> ]        <spec> ::= P | Pa "/" Pb "/" Pr        P ::= "R" | "L" | <n>
+/// flags (C08, paired runs — none of them may change the output line):
+///   p  the bytes surrounding the slices hold a second poison pattern (0xFF / 0x00 / 0x7F instead of 0xA5 / 0x5A / 0xC3)
+///   h  history: before the call, the same routine runs on unrelated data in other buffers, and an unrelated
+///      routine (f32 fallback dot product) runs too
+///   x  every xmm register holds all-ones (a NaN / -1 pattern) when the routine is entered
+///   z  every xmm register holds zero when the routine is entered
+///   b  (changes the output format only) NaN results are printed with sign and payload, "nan:<bits>"
+pub struct PlaceSpec<'a> { pub pa: &'a str, pub pb: &'a str, pub pr: &'a str, pub alt: bool, pub hist: bool, pub dirty: u8, pub raw: bool }
+impl<'a> PlaceSpec<'a> {
+    pub fn parse(tok: &'a str) -> Self {
+        let (spec, flags) = match tok.find('+') { Some(k) => (&tok[..k], &tok[k + 1..]), None => (tok, "") };
+        let parts: Vec<&str> = spec.split('/').collect();
+        let (pa, pb, pr) = if parts.len() == 3 { (parts[0], parts[1], parts[2]) } else { (spec, spec, spec) };
+        PlaceSpec { pa, pb, pr, alt: flags.contains('p'), hist: flags.contains('h'), raw: flags.contains('b'),
+                    dirty: if flags.contains('x') { 1 } else if flags.contains('z') { 2 } else { 0 } }
+    }
+    pub fn canaries(&self) -> (u8, u8, u8) { if self.alt { (0xFF, 0x00, 0x7F) } else { (0xA5, 0x5A, 0xC3) } }
+}
+
+/// Fill the sixteen xmm registers (caller-saved: they keep the pattern until the callee overwrites them).
+#[cfg(target_arch = "x86_64")]
+#[inline(always)]
+fn dirty_vector_registers(kind: u8) {
+    unsafe {
+        if kind == 1 {
+            core::arch::asm!(
+                "pcmpeqd xmm0, xmm0", "pcmpeqd xmm1, xmm1", "pcmpeqd xmm2, xmm2", "pcmpeqd xmm3, xmm3",
+                "pcmpeqd xmm4, xmm4", "pcmpeqd xmm5, xmm5", "pcmpeqd xmm6, xmm6", "pcmpeqd xmm7, xmm7",
+                "pcmpeqd xmm8, xmm8", "pcmpeqd xmm9, xmm9", "pcmpeqd xmm10, xmm10", "pcmpeqd xmm11, xmm11",
+                "pcmpeqd xmm12, xmm12", "pcmpeqd xmm13, xmm13", "pcmpeqd xmm14, xmm14", "pcmpeqd xmm15, xmm15",
+                out("xmm0") _, out("xmm1") _, out("xmm2") _, out("xmm3") _, out("xmm4") _, out("xmm5") _,
+                out("xmm6") _, out("xmm7") _, out("xmm8") _, out("xmm9") _, out("xmm10") _, out("xmm11") _,
+                out("xmm12") _, out("xmm13") _, out("xmm14") _, out("xmm15") _, options(nostack, nomem));
+        } else if kind == 2 {
+            core::arch::asm!(
+                "pxor xmm0, xmm0", "pxor xmm1, xmm1", "pxor xmm2, xmm2", "pxor xmm3, xmm3",
+                "pxor xmm4, xmm4", "pxor xmm5, xmm5", "pxor xmm6, xmm6", "pxor xmm7, xmm7",
+                "pxor xmm8, xmm8", "pxor xmm9, xmm9", "pxor xmm10, xmm10", "pxor xmm11, xmm11",
+                "pxor xmm12, xmm12", "pxor xmm13, xmm13", "pxor xmm14, xmm14", "pxor xmm15, xmm15",
+                out("xmm0") _, out("xmm1") _, out("xmm2") _, out("xmm3") _, out("xmm4") _, out("xmm5") _,
+                out("xmm6") _, out("xmm7") _, out("xmm8") _, out("xmm9") _, out("xmm10") _, out("xmm11") _,
+                out("xmm12") _, out("xmm13") _, out("xmm14") _, out("xmm15") _, options(nostack, nomem));
+        }
+    }
+}
+#[cfg(not(target_arch = "x86_64"))]
+fn dirty_vector_registers(_kind: u8) {}
+
+/// "Earlier calls": the same routine on unrelated data placed elsewhere, then an unrelated routine.
+fn history<T: Elem>(f: &AnyFn<T>, c: &Case<T>) {
+    let rev = |v: &Vec<T>| { let mut w = v.clone(); w.reverse(); w };
+    let (ja, jb, jr) = (rev(&c.a), rev(&c.b), rev(&c.r));
+    let ha = Guarded::new(&ja, "L", 0x11);
+    let hb = Guarded::new(&jb, "R", 0x22);
+    let mut hr = Guarded::new(&jr, "5", 0x33);
+    let _ = catch_unwind(AssertUnwindSafe(|| unsafe {
+        match f {
+            AnyFn::Dist(g) => { std::hint::black_box(g(ha.slice(), hb.slice())); }
+            AnyFn::Horiz(g) => { std::hint::black_box(g(ha.slice())); }
+            AnyFn::Vert(g) => g(ha.slice(), hb.slice(), hr.slice_mut()),
+            AnyFn::Value(g) => g(c.v, ha.slice(), hr.slice_mut()),
+        }
+    }));
+    if let Some(AnyFn::Dist(g)) = <f32 as Lookup>::any("f32_xany_fallback_nofma_dot") {
+        let x = [1.5f32, -2.25, 3.0, 0.125, 7.0];
+        std::hint::black_box(unsafe { g(&x, &x) });
+    }
+}
+
 pub fn parse_case<'a, T: Elem>(toks: &[&'a str]) -> Case<'a, T> {
     // toks: <la> <lb> <lr> <place> <v> <a...> <b...> <r...>
     let la: usize = toks[0].parse().unwrap(); let lb: usize = toks[1].parse().unwrap(); let lr: usize = toks[2].parse().unwrap();
@@ -111,36 +188,54 @@ pub fn parse_case<'a, T: Elem>(toks: &[&'a str]) -> Case<'a, T> {
 }
 
 fn finish<T: Elem>(ret: Option<T>, ga: &Guarded<T>, gb: &Guarded<T>, gr: &Guarded<T>, c: &Case<T>) -> String {
+    finish_with(ret, ga, gb, gr, c, (0xA5, 0x5A, 0xC3), None, false)
+}
+
+fn bytes_of<T: Copy>(v: &[T]) -> Vec<u8> {
+    unsafe { std::slice::from_raw_parts(v.as_ptr() as *const u8, v.len() * std::mem::size_of::<T>()).to_vec() }
+}
+
+fn finish_with<T: Elem>(ret: Option<T>, ga: &Guarded<T>, gb: &Guarded<T>, gr: &Guarded<T>, c: &Case<T>,
+                        can: (u8, u8, u8), snap: Option<(&[u8], &[u8])>, raw: bool) -> String {
     let mut out = String::from("ok ");
-    match ret { Some(x) => out.push_str(&x.to_hex()), None => out.push('-') }
-    for x in gr.slice() { out.push(' '); out.push_str(&x.to_hex()); }
+    let show = |x: T| if raw { x.to_hex_raw() } else { x.to_hex() };
+    match ret { Some(x) => out.push_str(&show(x)), None => out.push('-') }
+    for x in gr.slice() { out.push(' '); out.push_str(&show(*x)); }
     let same = |g: &Guarded<T>, v: &Vec<T>| g.slice().iter().zip(v.iter()).all(|(x, y)| x.to_hex() == y.to_hex());
-    if !same(ga, &c.a) || !same(gb, &c.b) { out.push_str(" INPUT-MODIFIED"); }
-    if !ga.canaries_intact(0xA5) || !gb.canaries_intact(0x5A) || !gr.canaries_intact(0xC3) { out.push_str(" CANARY-CLOBBERED"); }
+    let raw_same = match snap { Some((sa, sb)) => ga.raw_bytes() == sa && gb.raw_bytes() == sb, None => true };
+    if !same(ga, &c.a) || !same(gb, &c.b) || !raw_same { out.push_str(" INPUT-MODIFIED"); }
+    if !ga.canaries_intact(can.0) || !gb.canaries_intact(can.1) || !gr.canaries_intact(can.2) { out.push_str(" CANARY-CLOBBERED"); }
     out
 }
 
 pub fn run_any<T: Elem>(f: AnyFn<T>, toks: &[&str]) -> String {
     let c = parse_case::<T>(toks);
-    let ga = Guarded::new(&c.a, c.place, 0xA5);
-    let gb = Guarded::new(&c.b, c.place, 0x5A);
-    let mut gr = Guarded::new(&c.r, c.place, 0xC3);
+    let sp = PlaceSpec::parse(c.place);
+    let can = sp.canaries();
+    if sp.hist { history(&f, &c); }
+    let ga = Guarded::new(&c.a, sp.pa, can.0);
+    let gb = Guarded::new(&c.b, sp.pb, can.1);
+    let mut gr = Guarded::new(&c.r, sp.pr, can.2);
+    let (snap_a, snap_b) = (bytes_of(&c.a), bytes_of(&c.b));
+    let dirty = sp.dirty;
     let res = catch_unwind(AssertUnwindSafe(|| unsafe {
+        let (sa, sb) = (ga.slice(), gb.slice());
         match f {
-            AnyFn::Dist(g) => Some(g(ga.slice(), gb.slice())),
-            AnyFn::Horiz(g) => Some(g(ga.slice())),
-            AnyFn::Vert(g) => { g(ga.slice(), gb.slice(), gr.slice_mut()); None }
-            AnyFn::Value(g) => { g(c.v, ga.slice(), gr.slice_mut()); None }
+            AnyFn::Dist(g) => { dirty_vector_registers(dirty); Some(g(sa, sb)) }
+            AnyFn::Horiz(g) => { dirty_vector_registers(dirty); Some(g(sa)) }
+            AnyFn::Vert(g) => { let sr = gr.slice_mut(); dirty_vector_registers(dirty); g(sa, sb, sr); None }
+            AnyFn::Value(g) => { let sr = gr.slice_mut(); let v = c.v; dirty_vector_registers(dirty); g(v, sa, sr); None }
         }
     }));
-    match res { Ok(ret) => finish(ret, &ga, &gb, &gr, &c), Err(e) => panic_kind(e) }
+    match res { Ok(ret) => finish_with(ret, &ga, &gb, &gr, &c, can, Some((&snap_a, &snap_b)), sp.raw), Err(e) => panic_kind(e) }
 }
 
 pub fn run_safe<T: Elem>(f: SafeFn<T>, toks: &[&str]) -> String {
     let c = parse_case::<T>(toks);
-    let ga = Guarded::new(&c.a, c.place, 0xA5);
-    let gb = Guarded::new(&c.b, c.place, 0x5A);
-    let mut gr = Guarded::new(&c.r, c.place, 0xC3);
+    let sp = PlaceSpec::parse(c.place);
+    let ga = Guarded::new(&c.a, sp.pa, 0xA5);
+    let gb = Guarded::new(&c.b, sp.pb, 0x5A);
+    let mut gr = Guarded::new(&c.r, sp.pr, 0xC3);
     let res = catch_unwind(AssertUnwindSafe(|| {
         match f {
             SafeFn::Dist(g) => Some(g(ga.slice(), gb.slice())),
